@@ -40,7 +40,7 @@ Combine(test, S) == IF TestOf(test) = "anyof" THEN AnyOf(S)
                     ELSE AnyOf(S) \cup AllOf(S)
 
 PropVals(pf, card) ==
-  IF ~Has(card, pf.name) THEN {pf.isnd}
+  IF ~Has(card, pf.name) THEN (IF pf.isnd /\ pf.tms # << >> THEN BOOLEAN ELSE {pf.isnd})   \* absent, is-not-defined, yet text-matches: either reading
   ELSE IF pf.isnd THEN {FALSE}
   ELSE IF pf.tms = << >> THEN {TRUE}
   ELSE Combine(pf.test, [i \in 1..Len(pf.tms) |-> TMVals(pf.tms[i], Val(card, pf.name))])
@@ -52,8 +52,11 @@ InvalidIn(q) == \/ TestOf(q.test) \notin ValidTest
                      \/ \E k \in 1..Len(q.filters[i].tms) : MTOf(q.filters[i].tms[k].mt) \notin ValidMT
 
 \* verdict codes of the recorder: 0 false, 1 true, 2 error, 3 panic
-Accepted(q, card) == (IF InvalidIn(q) THEN {2} ELSE {})
-                     \cup (IF Cardinality(QueryVals(q, card)) = 1 THEN {IF TRUE \in QueryVals(q, card) THEN 1 ELSE 0} ELSE {})
+Accepted(q, card) ==
+  LET V == QueryVals(q, card)
+      codes == (IF TRUE \in V THEN {1} ELSE {}) \cup (IF FALSE \in V THEN {0} ELSE {}) IN
+  IF InvalidIn(q) THEN {2} \cup (IF Cardinality(V) = 1 THEN codes ELSE {})   \* an error, or the value every reading of the invalid enumeration agrees on
+  ELSE codes                                                                \* a valid query: its value (either one where the statement leaves it open)
 
 \* ---- Filter: matching cards in input order, cut to the first Limit, projected (valid queries only)
 CardMatch(q, card) == TRUE \in QueryVals(q, card)
